@@ -6,10 +6,22 @@ import (
 	"fmt"
 	"os"
 
+	"github.com/DemoHn/Zn/pkg/exec"
+	r "github.com/DemoHn/Zn/pkg/runtime"
 	h "verif/harness"
 )
 
 func main() {
+	// -f file.zn: run the FILE (modules are the files next to it) through LoadFile
+	if len(os.Args) == 3 && os.Args[1] == "-f" {
+		val, err := exec.NewInterpreter("znrun").SetExternalLibs(h.Libs()).LoadFile(os.Args[2]).Execute(r.ElementMap{})
+		if err != nil {
+			fmt.Println(exec.DisplayError(err))
+			return
+		}
+		fmt.Println("value:", val.String())
+		return
+	}
 	b, err := os.ReadFile(os.Args[1])
 	if err != nil {
 		panic(err)
